@@ -873,9 +873,9 @@ type walGen struct {
 }
 
 type walLay struct {
-	segs             int
-	w, s, size       int64
-	tail             string
+	segs       int
+	w, s, size int64
+	tail       string
 }
 
 func parseLay(ans string) (l walLay, ok bool) {
